@@ -554,6 +554,7 @@ where
     let per = (cases + threads - 1) / threads;
     let base_seed = ctx.sub_seed(&proto.name);
     let mut out = proto.like();
+    let t0 = Instant::now();
     let parts: Vec<Sub> = std::thread::scope(|s| {
         let mut hs = Vec::new();
         for t in 0..threads {
@@ -652,6 +653,7 @@ where
         out.merge(p);
     }
     out.exhaustive = false;
+    out.wall_ms = t0.elapsed().as_millis() as u64;
     out
 }
 
